@@ -209,6 +209,43 @@ def gen(seed: int, tier: str):
                     rec["observed_after_history"] = observed_prefactors(hb, ts)
                 fl = "(mkFlags %s %s %s)" % tuple("true" if x else "false" for x in (p, c, ls))
                 evals.append((f"run_case {fl} {dname}", rec))
+            # HISTORY on ONE builder and its own name generator: flags changed through the setters
+            # BETWEEN formulations (all three flags, both directions); every step is a case for the
+            # Gallina model at those flags, with the names/prefactors read back from the formulated model
+            if vname == "orig":
+                wb = Builder(reaction)
+                wn = wb.naming
+                if kind == "can":
+                    walk = [(False, False, True), (False, True, False), (False, True, True), (True, True, False), (False, False, False)]
+                else:
+                    walk = [(False, True, False), (True, True, False), (False, False, False), (False, True, False)]
+                if tier == "thorough":
+                    pool = ([(a, b, c) for a in (False, True) for b in (False, True) for c in (False, True)] if kind == "can"
+                            else [(a, b, False) for a in (False, True) for b in (False, True)])
+                    walk = walk + [rng.choice(pool) for _ in range(6)]
+                for k, (p, c, ls) in enumerate(walk):
+                    wn.insert_parent_helicities = p
+                    wn.insert_child_helicities = c
+                    if kind == "can":
+                        wn.insert_ls_combinations = ls
+                    couple = wn._HelicityAmplitudeNameGenerator__generate_amplitude_coefficient_couple
+                    obs, obs_names = observed_prefactors(wb, ts, with_names=True)
+                    rec = {
+                        "reaction": rname, "variant": f"history-step-{k}", "flags": [p, c, ls], "kind": kind,
+                        "walk": [list(x) for x in walk[: k + 1]],
+                        "mapping": dict(wn.parity_partner_coefficient_mapping),
+                        "triples": [[list(couple(t, i)) for i in t.topology.nodes] for t in ts],
+                        "raw": [[wn.generate_two_body_decay_suffix(t, i) for i in t.topology.nodes] for t in ts],
+                        "seq": [wn.generate_sequential_amplitude_suffix(t) for t in ts],
+                        "pref": [], "labels": [wn.generate_amplitude_name(t) for t in ts],
+                        "observed": obs, "observed_names": obs_names,
+                    }
+                    for t in ts:
+                        f = wb._HelicityAmplitudeBuilder__generate_amplitude_prefactor(t)
+                        fr = Fraction(1) if f is None else Fraction(int(f.p), int(f.q))
+                        rec["pref"].append([fr.numerator, fr.denominator])
+                    fl = "(mkFlags %s %s %s)" % tuple("true" if x else "false" for x in (p, c, ls))
+                    evals.append((f"run_case {fl} {dname}", rec))
             # CG arguments and data facts (flag independent)
             if vname == "orig":
                 cgn, cgimpl = [], []
@@ -278,25 +315,29 @@ def gen(seed: int, tier: str):
     print(json.dumps({"files": [f["file"] for f in files], "cases": len(evals), "facts": {k: (v if isinstance(v, int) else len(v)) for k, v in facts.items()}}))
 
 
-def observed_prefactors(builder, ts):
-    """Prefactor actually present in the formulated model: component / (coefficient * D-functions)."""
+def observed_prefactors(builder, ts, with_names=False):
+    """Prefactor actually present in the formulated model: component / (coefficient * D-functions);
+    with_names: also the coefficient symbol's name."""
     import sympy as sp
     from sympy.physics.quantum.cg import CG
     from sympy.physics.quantum.spin import WignerD
 
     model = builder.formulate()
-    out = []
+    out, names = [], []
     for t in ts:
         name = "A_{" + builder.naming.generate_amplitude_name(t) + "}"
         expr = model.components.get(name)
         if expr is None:
             out.append(None)
+            names.append(None)
             continue
         e = expr.replace(lambda x: isinstance(x, (WignerD, CG)), lambda x: sp.Integer(1))
+        syms = sorted(str(x) for x in e.free_symbols)
+        names.append(syms[0] if len(syms) == 1 else None)
         e = e.xreplace({s: sp.Integer(1) for s in e.free_symbols})
         e = sp.nsimplify(e)
         out.append([int(e.p), int(e.q)] if e.is_Rational else [str(e), 1])
-    return out
+    return (out, names) if with_names else out
 
 
 def parse_out(text: str):
@@ -366,7 +407,12 @@ def compare(rec, val):
         idx = next(i for i, (a, b) in enumerate(zip(fp, rec["pref"])) if a != b)
         note = " (implementation equals the PRE-fix model prefactor_pinned here)" if [pinned[idx], 1] == rec["pref"][idx] else ""
         bad.append(f"prefactor of chain {rec['labels'][idx]!r}: model {prefs[idx]} impl {rec['pref'][idx]}{note}")
-    for field, how in (("observed", "fresh builder"), ("observed_after_history", "same builder after formulate() with parent helicities in the names")):
+    if rec.get("observed_names") is not None:
+        for idx, nm in enumerate(rec["observed_names"]):
+            if nm is not None and nm != "C_{" + rec["seq"][idx] + "}":
+                bad.append(f"sequential suffix in formulated model of chain {rec['labels'][idx]!r}: coefficient {nm!r} but generate_sequential_amplitude_suffix gives {rec['seq'][idx]!r}")
+                break
+    for field, how in (("observed", "fresh builder" if not rec.get("walk") else f"one builder walked through flags {rec.get('walk')}"), ("observed_after_history", "same builder after formulate() with parent helicities in the names")):
         if rec.get(field) is not None:
             for idx, o in enumerate(rec[field]):
                 if o is not None and o != [prefs[idx], 1]:
@@ -401,8 +447,8 @@ def cmp_():
             sig = f"corr:{head}"
             if sig not in sig_seen:
                 sig_seen.add(sig)
-                disagreements.append({"signature": sig, "what": f"{rec['reaction']} [{rec['variant']}] flags(parent,child,ls)={rec.get('flags')}: {bad[0]}",
-                                      "case": {"reaction": rec["reaction"], "variant": rec["variant"], "flags": rec.get("flags"), "seed": doc["seed"], "tier": doc["tier"], "detail": bad[:3]}})
+                disagreements.append({"signature": sig, "what": f"{rec['reaction']} [{rec['variant']}] flags(parent,child,ls)={rec.get('flags')}" + (f" after walking ONE builder through {rec['walk']}" if rec.get("walk") else "") + f": {bad[0]}",
+                                      "case": {"reaction": rec["reaction"], "variant": rec["variant"], "flags": rec.get("flags"), "walk": rec.get("walk"), "seed": doc["seed"], "tier": doc["tier"], "detail": bad[:3]}})
         else:
             n_ok += 1
         n_coupled += 1 if stats["coupled"] else 0
